@@ -26,7 +26,11 @@ const N_LAYERS: usize = 2;
 const N_HEADS: usize = 2;
 const N_CHANS: usize = 3;
 const N_VOCAB: usize = 64;
-const FIXED_INPUTS: [&str; 4] = ["input_ids", "position_ids", "cache_position", "attention_mask"];
+/// `aux_range` is fed through `Generator::with_varying_input` (the position range
+/// of the run), `konst` through `Generator::with_constant_input`.
+const FIXED_INPUTS: [&str; 6] = ["input_ids", "position_ids", "cache_position", "attention_mask", "aux_range", "konst"];
+const N_FIXED: usize = FIXED_INPUTS.len();
+pub const KONST: i32 = 77;
 
 #[derive(Clone, Copy, PartialEq, Debug)]
 pub enum KvLayout {
@@ -44,6 +48,9 @@ pub struct Variant {
     pub reuse: bool,
     /// `GeneratorConfig::kv_cache_capacity` (0 = None).
     pub cap: usize,
+    /// Configure a position-varying input (`with_varying_input`) and a constant
+    /// input (`with_constant_input`) in addition to the standard inputs.
+    pub extra: bool,
 }
 
 pub struct Mock {
@@ -246,6 +253,8 @@ impl Model for Mock {
         let mut pos: Vec<i32> = Vec::new();
         let mut cpos: Vec<i32> = Vec::new();
         let mut mask: Vec<i32> = Vec::new();
+        let mut aux: Vec<i32> = Vec::new();
+        let mut konst: i64 = -1;
         let mut caches: Vec<Option<ValueOrView>> = (0..n_slots).map(|_| None).collect();
         for (id, v) in inputs {
             let i = id.as_usize();
@@ -257,7 +266,9 @@ impl Model for Mock {
                 1 => pos = ints(&v.as_view())?,
                 2 => cpos = ints(&v.as_view())?,
                 3 => mask = ints(&v.as_view())?,
-                _ => caches[i - 4] = Some(v),
+                4 => aux = ints(&v.as_view())?,
+                5 => konst = ints(&v.as_view())?.first().copied().unwrap_or(-2) as i64,
+                _ => caches[i - N_FIXED] = Some(v),
             }
         }
         let ids = ids.ok_or("input_ids missing")?;
@@ -267,10 +278,15 @@ impl Model for Mock {
             *r
         };
 
-        // what each KV-cache input holds
-        let mut kv_in: Vec<Value> = Vec::new();
+        // what the KV-cache inputs hold, logged without redundancy: the length of
+        // each, the distinct token rows found in any head of any cache, the distinct
+        // version stamps, and the distinct (cache number, slot stamp) pairs
+        let mut lens: Vec<i64> = Vec::new();
+        let mut tok_rows: Vec<Vec<i64>> = Vec::new();
+        let mut vers: Vec<i64> = Vec::new();
+        let mut tags: Vec<Vec<i64>> = Vec::new();
         let mut rows: Vec<Vec<Vec<[f32; 3]>>> = Vec::new();
-        for c in caches.iter() {
+        for (slot, c) in caches.iter().enumerate() {
             match c {
                 Some(c) => {
                     let view = match c.as_view() {
@@ -278,19 +294,31 @@ impl Model for Mock {
                         _ => return Err("cache is not a float tensor".into()),
                     };
                     let r = self.read_cache(&view)?;
-                    let toks: Vec<Vec<i64>> = r.iter().map(|h| h.iter().map(|x| x[0] as i64).collect()).collect();
-                    let vers = sorted_distinct(r.iter().flatten().map(|x| x[1] as i64).collect());
-                    let tags = sorted_distinct(r.iter().flatten().map(|x| x[2] as i64).collect());
-                    kv_in.push(json!({"len": r[0].len(), "toks": toks, "vers": vers, "tags": tags}));
+                    lens.push(r[0].len() as i64);
+                    for h in r.iter() {
+                        let row: Vec<i64> = h.iter().map(|x| x[0] as i64).collect();
+                        if !tok_rows.contains(&row) {
+                            tok_rows.push(row);
+                        }
+                        for x in h.iter() {
+                            vers.push(x[1] as i64);
+                            let pair = vec![slot as i64, x[2] as i64];
+                            if !tags.contains(&pair) {
+                                tags.push(pair);
+                            }
+                        }
+                    }
                     rows.push(r);
                 }
                 None => {
                     // cache input not provided at all
-                    kv_in.push(json!({"len": -1, "toks": [], "vers": [], "tags": []}));
+                    lens.push(-1);
                     rows.push((0..self.heads()).map(|_| Vec::new()).collect());
                 }
             }
         }
+        let vers = sorted_distinct(vers);
+        let kv_in = json!({"lens": lens, "rows": tok_rows, "vers": vers, "tags": tags});
 
         // the mock's view of the conversation and the token it predicts
         let mut view: Vec<i32> = if n_slots > 0 { rows[0][0].iter().map(|x| x[0] as i32).collect() } else { Vec::new() };
@@ -302,7 +330,7 @@ impl Model for Mock {
         // mask: its length if it is all ones, else -1
         let mask_len: i64 = if mask.iter().all(|m| *m == 1) { mask.len() as i64 } else { -1 };
         self.log.borrow_mut().push(json!({
-            "ids": ids, "pos": pos, "cpos": cpos, "mask": mask_len,
+            "ids": ids, "pos": pos, "cpos": cpos, "mask": mask_len, "aux": aux, "konst": konst,
             "kv_in": kv_in, "logits": want_logits, "chosen": chosen,
         }));
 
@@ -327,13 +355,15 @@ impl Model for Mock {
         Ok(result)
     }
 
-    fn partial_run(&self, _inputs: Vec<(NodeId, ValueOrView)>, _outputs: &[NodeId], _opts: Option<RunOptions>) -> Result<Vec<(NodeId, RValue)>, Box<dyn Error>> {
-        Ok(Vec::new())
+    /// Nothing can be evaluated from constant inputs alone: the leaves of the
+    /// partial evaluation are the given inputs themselves.
+    fn partial_run(&self, inputs: Vec<(NodeId, ValueOrView)>, _outputs: &[NodeId], _opts: Option<RunOptions>) -> Result<Vec<(NodeId, RValue)>, Box<dyn Error>> {
+        Ok(inputs.into_iter().map(|(id, v)| (id, v.to_owned())).collect())
     }
 }
 
 fn variant_json(v: &Variant) -> Value {
-    json!({"layout": if v.layout == KvLayout::Bhsc { "bhsc" } else { "bsc" }, "reuse": v.reuse, "cap": v.cap})
+    json!({"layout": if v.layout == KvLayout::Bhsc { "bhsc" } else { "bsc" }, "reuse": v.reuse, "cap": v.cap, "extra": v.extra})
 }
 
 fn variant_from(kv: bool, j: &Value) -> Variant {
@@ -342,6 +372,7 @@ fn variant_from(kv: bool, j: &Value) -> Variant {
         layout: if j["layout"] == "bhsc" { KvLayout::Bhsc } else { KvLayout::Bsc },
         reuse: j["reuse"].as_bool().unwrap_or(false),
         cap: j["cap"].as_u64().unwrap_or(0) as usize,
+        extra: j["extra"].as_bool().unwrap_or(false),
     }
 }
 
@@ -349,11 +380,21 @@ fn toks_of(j: &Value) -> Vec<u32> {
     j.as_array().map(|a| a.iter().map(|x| x.as_u64().unwrap() as u32).collect()).unwrap_or_default()
 }
 
-/// Replay one history on a fresh generator, writing a `case` record and one
-/// `op` record per call.
-pub fn run_case(trace: &mut Trace, v: &Variant, ops: &[Value]) {
-    trace.emit(json!({"ev": "case", "kv": v.kv, "variant": variant_json(v), "ops": ops,
+/// Value of the `aux_range` input: the position range of the run.
+fn aux_fn<'a>(_batch: usize, r: std::ops::Range<usize>) -> ValueOrView<'a> {
+    NdTensor::from([r.start as i32, r.end as i32]).into()
+}
+
+/// Replay one history on a fresh generator.  A `case` record is written, then
+/// one `op` record per call from call number `keep` on: the first `keep` calls
+/// are the same as in the previous case of this pass (same model variant) and
+/// were recorded and judged there; the trace spec restores the contract state
+/// it saved after them.  Returns the number of calls that completed "ok" and
+/// may therefore be shared with the next case.
+pub fn run_case(trace: &mut Trace, v: &Variant, ops: &[Value], keep: usize) -> usize {
+    trace.emit(json!({"ev": "case", "kv": v.kv, "variant": variant_json(v), "ops": ops, "keep": keep,
                       "slots": if v.kv { 2 * N_LAYERS } else { 0 }, "heads": if v.layout == KvLayout::Bhsc { N_HEADS } else { 1 }}));
+    let konst = NdTensor::from([KONST]);
     let mock = Mock::new(v.clone());
     let config = GeneratorConfig {
         model_inputs: ModelInputsConfig::default(),
@@ -366,7 +407,15 @@ pub fn run_case(trace: &mut Trace, v: &Variant, ops: &[Value]) {
             std::process::exit(2);
         }
     };
-    for op in ops {
+    if v.extra {
+        let g = generator.take().unwrap();
+        let g = g
+            .with_varying_input(mock.find_node("aux_range").unwrap(), &aux_fn)
+            .with_constant_input(mock.find_node("konst").unwrap(), konst.view().into());
+        generator = Some(g);
+    }
+    let mut ok_calls = 0;
+    for (index, op) in ops.iter().enumerate() {
         let name = op["op"].as_str().unwrap_or("");
         let toks = toks_of(&op["toks"]);
         let nothing_pending = generator.as_ref().map(|g| g.prompt().is_empty()).unwrap_or(true);
@@ -417,29 +466,44 @@ pub fn run_case(trace: &mut Trace, v: &Variant, ops: &[Value]) {
             ),
             _ => (Vec::new(), Vec::new(), -1),
         };
-        trace.emit(json!({"ev": "op", "op": name, "toks": toks, "outcome": outcome, "ret": ret,
-                          "runs": runs, "prompt": prompt, "prev": prev, "kvlen": kvlen}));
+        if index >= keep {
+            trace.emit(json!({"ev": "op", "op": name, "toks": toks, "outcome": outcome, "ret": ret,
+                              "runs": runs, "prompt": prompt, "prev": prev, "kvlen": kvlen}));
+        }
         // the contract leaves next() with nothing pending open: the history ends there
         if outcome != "ok" || (name == "next" && nothing_pending) {
             break;
         }
+        ok_calls += 1;
     }
+    ok_calls
 }
 
-fn pick_variant(rng: &mut Rng, kv: bool) -> Variant {
+/// The model variants: cache layout x in-place/fresh cache tensors x
+/// kv_cache_capacity x extra inputs.
+fn variant_no(kv: bool, n: usize) -> Variant {
     if !kv {
         // no cache tensors: the cache-related knobs are meaningless
-        return Variant { kv, layout: KvLayout::Bsc, reuse: false, cap: 0 };
+        return Variant { kv, layout: KvLayout::Bsc, reuse: false, cap: 0, extra: n % 2 == 1 };
     }
+    let caps = [0usize, 4, 16];
     Variant {
         kv,
-        layout: if rng.chance(1, 2) { KvLayout::Bhsc } else { KvLayout::Bsc },
-        reuse: rng.chance(1, 2),
-        cap: *rng.pick(&[0usize, 0, 4, 16]),
+        layout: if n % 2 == 0 { KvLayout::Bhsc } else { KvLayout::Bsc },
+        reuse: (n / 2) % 2 == 1,
+        cap: caps[(n / 4) % 3],
+        extra: (n / 3) % 2 == 1,
     }
 }
 
-/// `vh-gen generator --hist <jsonl> --out <ndjson> [--variants N] [--only-case <json>]`
+fn op_key(ops: &[Value]) -> Vec<(String, Vec<u32>)> {
+    ops.iter().map(|o| (o["op"].as_str().unwrap_or("").to_string(), toks_of(&o["toks"]))).collect()
+}
+
+/// `vh-gen generator --hist <jsonl> --out <ndjson> [--variants N] [--salt S] [--only-case <json>]`
+///
+/// The histories are replayed in lexicographic order, once per model variant
+/// ("pass"), so that consecutive cases share their longest common prefix.
 pub fn main_generator() {
     quiet_panics();
     let out = arg_or("--out", "-");
@@ -448,26 +512,34 @@ pub fn main_generator() {
         let c: Value = serde_json::from_str(&c).expect("bad --only-case json");
         let kv = c["kv"].as_bool().unwrap_or(false);
         let v = variant_from(kv, &c["variant"]);
-        run_case(&mut trace, &v, c["ops"].as_array().expect("ops"));
+        run_case(&mut trace, &v, c["ops"].as_array().expect("ops"), 0);
         return;
     }
     let hist = arg("--hist").expect("--hist <file>");
     let nvar = arg_usize("--variants", 2);
-    // `--salt n` decorrelates the variant choices of the chunks of one run
+    // the seed and `--salt n` (chunk number) choose which variants this chunk uses
     let mut rng = Rng::new(vcommon::seed_from_env().wrapping_add(0x51ed_270b * arg_usize("--salt", 0) as u64));
-    for h in read_json_lines(&hist) {
-        let kv = h["kv"].as_bool().unwrap_or(false);
-        let ops = h["ops"].as_array().expect("ops").clone();
-        let n = if kv { nvar } else { 1 };
-        let mut seen: Vec<(bool, bool, usize)> = Vec::new();
-        for _ in 0..n {
-            let v = pick_variant(&mut rng, kv);
-            let key = (v.layout == KvLayout::Bhsc, v.reuse, v.cap);
-            if seen.contains(&key) {
-                continue;
+    let first_variant = rng.below(12);
+    let mut all: Vec<(bool, Vec<Value>)> = read_json_lines(&hist)
+        .into_iter()
+        .map(|h| (h["kv"].as_bool().unwrap_or(false), h["ops"].as_array().expect("ops").clone()))
+        .collect();
+    all.sort_by_key(|(kv, ops)| (*kv, op_key(ops)));
+    for kv in [false, true] {
+        let passes = if kv { nvar } else { 1 };
+        for pass in 0..passes {
+            // consecutive variant numbers differ in layout, reuse and (every third) extra inputs
+            let v = variant_no(kv, first_variant + pass * 7);
+            let mut prev_key: Vec<(String, Vec<u32>)> = Vec::new();
+            let mut prev_ok = 0usize;
+            for (_, ops) in all.iter().filter(|(k, _)| *k == kv) {
+                let key = op_key(ops);
+                let common = key.iter().zip(prev_key.iter()).take_while(|(a, b)| a == b).count();
+                // never skip the whole history: its last call is always recorded again
+                let keep = common.min(prev_ok).min(ops.len().saturating_sub(1));
+                prev_ok = run_case(&mut trace, &v, ops, keep);
+                prev_key = key;
             }
-            seen.push(key);
-            run_case(&mut trace, &v, &ops);
         }
     }
 }
